@@ -309,6 +309,49 @@ pub fn run(reg: &dyn Registry, ctx: &Ctx) -> Outcome {
             }
         }
 
+        // multiplication-boundary operands of the * and ** scramblers: operands on which a product split
+        // into partial products has a deciding carry, for the first multiplier directly and for the
+        // second through the inverse of the first stage
+        {
+            let w = kind.word_bits();
+            let mask = if w == 64 { u64::MAX } else { (1u64 << w) - 1 };
+            let rotr = |y: u64, r: u32| -> u64 { if w == 64 { y.rotate_right(r) } else { ((y as u32).rotate_right(r)) as u64 } };
+            let stages: Option<(u64, u32, u64)> = match kind {
+                Kind::Xoroshiro64Star => Some((0x9E37_79BB, 0, 1)),
+                Kind::Xoroshiro64StarStar => Some((0x9E37_79BB, 5, 5)),
+                Kind::Xoroshiro128StarStar | Kind::Xoshiro128StarStar | Kind::Xoshiro256StarStar | Kind::Xoshiro512StarStar => Some((5, 7, 9)),
+                _ => None,
+            };
+            if let Some((m1, rot, m2)) = stages {
+                let (a, _) = scrambler_operands(kind);
+                let mut xs = alphabet::mult_boundary_words(w, m1, ctx.seed);
+                if m2 > 1 {
+                    let inv = alphabet::inv_odd(m1, w);
+                    xs.extend(alphabet::mult_boundary_words(w, m2, ctx.seed ^ 1).into_iter().map(|y| rotr(y, rot).wrapping_mul(inv) & mask));
+                }
+                xs.sort();
+                xs.dedup();
+                let wb = w / 8;
+                let bgw = alphabet::bg_bytes(ctx.seed, 0xCA55 + kind as u64, len);
+                let res: Vec<Result<u64, (String, serde_json::Value)>> = xs
+                    .par_iter()
+                    .map(|&x| {
+                        let mut s = bgw.clone();
+                        s[a * wb..(a + 1) * wb].copy_from_slice(&x.to_le_bytes()[..wb]);
+                        lockstep(*ty, kind, &s, 1)
+                    })
+                    .collect();
+                ctx.add("carry_pairs", xs.len() as u64);
+                ctx.add("multiplication_boundary_operands", xs.len() as u64);
+                for r in res {
+                    match r {
+                        Ok(n) => ctx.add("steps_compared", n),
+                        Err((what, replay)) => ctx.violation(&format!("C01:{}:mult-carry", info.name), &format!("{}: {}", info.name, what), replay),
+                    }
+                }
+            }
+        }
+
         // (c) the linear engine on all states: extracted matrix == reference matrix, bound by replay
         if kind.is_linear() {
             match linear::extract(*ty, LinOp::Step) {
@@ -372,6 +415,35 @@ pub fn run(reg: &dyn Registry, ctx: &Ctx) -> Outcome {
                     }
                 }
                 Err(e) => ctx.machinery(&format!("{}: cannot extract the engine matrix (undecided; the lock-step enumeration above still decides the enumerated states): {}", info.name, e)),
+            }
+        }
+
+        // (c2) value-directed deep states: start states s for which the state k steps later (k = 2^8-1, 2^8,
+        // 2^16-1, 2^16) has a special word pattern (a zero word, equal words, ...), obtained by solving
+        // T_ref^k s = target on the reference matrix; lock-step for k+6 steps. What a periodic check
+        // (every 2^8-th / 2^16-th call) keyed on the state's words would single out.
+        if kind.is_linear() {
+            let tref = ref_matrix(RefModel::Xo(kind));
+            let n = kind.state_bits();
+            let mut starts: Vec<(usize, Vec<u8>)> = Vec::new();
+            for k in [255usize, 256, 65535, 65536] {
+                let tk = tref.pow_big(&refmodels::gf2::BigU::from_u64(k as u64));
+                let imgs = linear::special_images(n, kind.word_bits(), ctx.seed ^ k as u64);
+                for t in imgs.into_iter().step_by(if k > 1000 { 3 } else { 1 }) {
+                    if let Some(s0) = tk.solve(&t) {
+                        if !s0.is_zero() {
+                            starts.push((k, s0.to_bytes()));
+                        }
+                    }
+                }
+            }
+            let res: Vec<_> = starts.par_iter().map(|(k, s0)| lockstep(*ty, kind, s0, k + 6)).collect();
+            ctx.add("value_directed_deep_starts", starts.len() as u64);
+            for r in res {
+                match r {
+                    Ok(nn) => ctx.add("steps_compared", nn),
+                    Err((what, replay)) => ctx.violation(&format!("C01:{}:deep-special", info.name), &format!("{}: {}", info.name, what), replay),
+                }
             }
         }
 
